@@ -9,6 +9,10 @@ import vf
 vf.use_repo()
 from ak.mtd_sql import SqlMethod  # noqa: E402
 try:
+    from ak.mtd_sql import SqlFieldValCondition  # noqa: E402
+except ImportError:     # pragma: no cover
+    SqlFieldValCondition = None
+try:
     from ak.mcaller_sql import MCallerSql, method_sql  # noqa: E402
 except Exception:  # pragma: no cover
     MCallerSql = method_sql = None
@@ -370,6 +374,9 @@ def method(kind):
         elif kind == "qmark":
             # the select text itself holds a question mark and a percent sign - as text, not as placeholders
             _METHODS[kind] = SqlMethod("SELECT id, n, s, '?' AS mark, 'x' AS pct FROM t", order_by="id")
+        elif kind == "no-key":
+            # no selected column is unique: two different rows may give the same record
+            _METHODS[kind] = SqlMethod("SELECT n, s FROM t", order_by="id")
         elif kind == "odd-names":
             _METHODS[kind] = SqlMethod('SELECT id, n AS "class", s AS "2 s" FROM t', order_by="id")
         else:
@@ -427,6 +434,11 @@ def run_case(ctx, rng):
             for i in range(rng.randint(0, 12))]
     for k, r in enumerate(rows):
         r['ts'] = (TS_VALUES + [None])[(k * 7 + len(rows) + (r['n'] or 0)) % 5]
+    if len(rows) >= 2 and len(rows) % 3 == 2:
+        # two rows that differ in nothing but the id
+        a, b = rng.sample(range(len(rows)), 2)
+        rows[b] = dict(rows[a], id=b)
+        ctx.count("tables_with_two_rows_that_differ_only_in_the_id")
     stored = list(rows)
     random.Random(len(rows) * 7 + sum(r['n'] or 0 for r in rows)).shuffle(stored)
     db.executemany(INSERT, stored)
@@ -542,13 +554,27 @@ def run_case(ctx, rng):
                 scalar = rng.random() < 0.3      # the single row may be asked for as a scalar (id 0 is falsy)
                 if scalar:
                     call_kw['_as_scalars'] = True
+                no_key = rng.random() < 0.3
+                if no_key:
+                    # the select list has no unique column: rows that satisfy the filters stay that many rows even
+                    # when they read the same
+                    m = method("no-key")
+                    ctx.count("one_row_semantics_checked_on_a_select_without_a_unique_column")
+                    if scalar and len(exp) == 1 and rows[exp[0]]['n'] is None:
+                        # (a single NULL asked for as a scalar reads like 'no record': the interface cannot tell
+                        # them apart, whatever the code does - not judged)
+                        ctx.count("single_NULL_scalars_not_judged(out of domain)")
+                        scalar = False
+                        del call_kw['_as_scalars']
                 try:
                     rec = getattr(m, mode)(conn, *args, **call_kw)
                     if rec is not None and scalar:
                         rec = (rec,)
                     if len(exp) > 1 or (mode == "one" and not exp):
-                        ctx.violation("one-row-method-does-not-raise", {"mode": mode, "rows": len(exp)}, case)
-                    elif (rec is None) != (not exp) or (rec is not None and rec[0] != exp[0]):
+                        ctx.violation("one-row-method-does-not-raise", {"mode": mode, "rows": len(exp),
+                                                                        "select": m.sql_select_from}, case)
+                    elif (rec is None) != (not exp) or (rec is not None and (
+                            tuple(rec) != (rows[exp[0]]['n'], rows[exp[0]]['s'])[:len(rec)] if no_key else rec[0] != exp[0])):
                         ctx.violation("one-row-method-wrong-record", {"mode": mode, "got": repr(rec)}, case)
                 except ValueError:
                     if len(exp) == 1 or (mode == "one_or_none" and not exp):
@@ -674,7 +700,61 @@ def run_case(ctx, rng):
     if len(all_conds) >= 2 and len(rows) >= 3 and any(interesting(c) for c in all_conds):
         ctx.nontrivial(sig_of([rows, all_conds]))
     star_scalars(ctx, db, conn, rows, case)
+    reused_condition(ctx, rng, conn, rows, case)
     return case
+
+
+def reused_condition(ctx, rng, conn, rows, case):
+    """ONE condition object of the caller (also inside an OR group) given to two requests; the list or set it was made
+    with grows or shrinks in between, as the caller's working set does"""
+    if len(rows) % 5 != 3 or SqlFieldValCondition is None:
+        return
+    pool = [0, 1, 2, 5, -3, 7]
+    vals = rng.sample(pool, rng.choice([1, 2, 3]))
+    holder = set(vals) if rng.random() < 0.3 else list(vals)
+    op = rng.choice(['IN', 'NOT IN', '=', '!='])
+    if isinstance(holder, set) and op in ('=', '!='):
+        op = 'IN'
+    cond = SqlFieldValCondition('n', op, holder)
+    in_group = rng.random() < 0.4
+    arg = SqlMethod._or(cond, ('s', '=', 'abc')) if in_group else cond
+    m = method("rows")
+    for step in range(3):
+        now = list(holder)
+        positive = op in ('IN', '=')
+        def holds(r):
+            v = None if r['n'] is None else ((r['n'] in now) == positive if now else (not positive))
+            if not now:
+                v = not positive     # (an empty list: nothing is in it, also not NULL)
+            return OR([v, cmp('=', r['s'], 'abc')]) if in_group else v
+        want = [r['id'] for r in rows if holds(r) is True]
+        del conn.log[:]
+        try:
+            got = [r[0] for r in m.list(conn, arg)]
+        except Exception as err:
+            ctx.violation("query-raises", {"type": type(err).__name__, "msg": str(err)[:150], "request": step + 1,
+                                           "stmt": conn.log[-1] if conn.log else None,
+                                           "condition_object_used_again": True}, case)
+            return
+        ctx.count("requests_with_a_condition_object_used_before")
+        if got != want:
+            ctx.violation("rows-differ-from-three-valued-evaluation",
+                          {"got": got, "expected": want, "stmt": conn.log[-1] if conn.log else None,
+                           "condition_object_used_again": True, "values_now": now}, case)
+            return
+        if conn.log:
+            sql, params = conn.log[-1]
+            if sorted(map(repr, params)) != sorted(map(repr, now + (['abc'] if in_group else []))):
+                ctx.violation("bound-values-differ-from-condition-values", {"sql": sql, "params": params,
+                                                                            "expected": now}, case)
+                return
+        # the caller's working set changes
+        if isinstance(holder, set):
+            (holder.add if step == 0 or not holder else holder.discard)(rng.choice(pool) if step == 0 or not holder else next(iter(holder)))
+        elif step == 0 or not holder:
+            holder.append(rng.choice(pool))
+        else:
+            holder.pop(rng.randrange(len(holder)))
 
 
 _STAR = [0]
